@@ -154,11 +154,13 @@ theorem C04_cfloat_to_ld_full_false : ¬ C04_cfloat_to_ld_full := by
   revert this
   decide +kernel
 
-/-- known finding cfloat.from_ld.nan_masks: the signalling NaN of cfloat<8,4> read back as a long double (fraction bit 61)
-    converts to the QUIET NaN encoding; the quiet NaN survives -/
-theorem C04_cfloat_ld_snan_roundtrip_counterexample :
+/-- former finding cfloat.from_ld.nan_masks (repaired: `ieee754_parameter<long double>::qnanmask / snanmask` address the
+    63-bit fraction): the signalling NaN of cfloat<8,4> read back as a long double (fraction bit 61) converts back to the
+    signalling NaN encoding, the quiet NaN to the quiet one (with the binary64 masks the signalling NaN came back quiet) -/
+theorem C04_cfloat_ld_nan_roundtrip_cfg :
     let c : Cfg := { nbits := 8, es := 4, bt := 8, sub := true }
     toNativeLD c 0xff = .nan true ∧ toNativeLD c 0x7f = .nan false ∧
-    fromLD c UVerif.Generated.ieeeF80_qnanmask UVerif.Generated.ieeeF80_snanmask UVerif.Generated.ieeeF80_hmask (0x7fff <<< 63 + 2 ^ 61) = 0x7f ∧
-    fromLD c UVerif.Generated.ieeeF80_qnanmask UVerif.Generated.ieeeF80_snanmask UVerif.Generated.ieeeF80_hmask (0x7fff <<< 63 + 2 ^ 62) = 0x7f := by
+    fromLD c UVerif.Generated.ieeeF80_qnanmask UVerif.Generated.ieeeF80_snanmask UVerif.Generated.ieeeF80_hmask (0x7fff <<< 63 + 2 ^ 61) = 0xff ∧
+    fromLD c UVerif.Generated.ieeeF80_qnanmask UVerif.Generated.ieeeF80_snanmask UVerif.Generated.ieeeF80_hmask (0x7fff <<< 63 + 2 ^ 62) = 0x7f ∧
+    fromLD c 0x7FF8000000000000 0x7FF4000000000000 UVerif.Generated.ieeeF80_hmask (0x7fff <<< 63 + 2 ^ 61) = 0x7f := by
   decide +kernel
